@@ -209,13 +209,17 @@ impl NaiveWeek {
 
 impl PartialEq for NaiveWeek {
     fn eq(&self, other: &Self) -> bool {
-        self.first_day() == other.first_day()
+        // The first or the last day may be out of range for a week at either end of the range of
+        // `NaiveDate` (never both), so compare both without panicking.
+        self.checked_first_day() == other.checked_first_day()
+            && self.checked_last_day() == other.checked_last_day()
     }
 }
 
 impl Hash for NaiveWeek {
     fn hash<H: Hasher>(&self, state: &mut H) {
-        self.first_day().hash(state);
+        self.checked_first_day().hash(state);
+        self.checked_last_day().hash(state);
     }
 }
 
